@@ -15,7 +15,7 @@ from props.stress_twin import run_twin, twin_replay
 ASSUMPTIONS = [
     'sequentially consistent interleaving at LOAD/CAS granularity; compare_exchange_weak never fails spuriously on x86 (the index-queue model allows it, the lock-step runs do not exercise it)',
     'deque: anchor and link tags are unbounded in the model (16 bit in the code: a wrap within one stalled window is not modelled)',
-    'deque: boost freelist_stack::allocate / deallocate are one atomic step each (their internal CAS loops are not split); the node constructor (two link stores + data) is one step',
+    'deque: boost freelist_stack::allocate / deallocate are one atomic step each (their internal CAS loops are not split); the node constructor (reads of the two link tags left in the chunk + two link stores + data) is one step, and so is the pushes\' private link store (tag read + store); fresh chunks are zero-filled by the pool (boost >= 1.77)',
     'moodycamel ConcurrentQueue internals are specified (bag with per-producer FIFO), not modelled: the FIFO back-end is covered by differential and conservation TESTS only',
 ]
 
@@ -386,8 +386,9 @@ def replay(ctx, r, drv, h_iq, h_dq, h_ff):
     r.rule = 'replay of %s' % ctx.replay
     if hn == 'c17_deque':
         p = case.split(' ')
-        if args and args[0] == 'witness' or (len(p) > 2 and p[2] == 'w'):
-            hargs = ['witness', 0, 0, 1]
+        wmodes = {'w': 'witness', 'w2': 'witness2', 'w3': 'witness3', 'w4': 'witness4'}
+        if (args and args[0] in wmodes.values()) or (len(p) > 2 and p[2] in wmodes):
+            hargs = [args[0] if args and args[0] in wmodes.values() else wmodes[p[2]], 0, 0, 1]
         elif args and args[0] == 'seq':
             hargs = ['seq', int(args[1]), int(p[2]) if len(p) > 2 else int(args[2]), 1]
         else:
@@ -506,29 +507,34 @@ def run(ctx):
         for s in list(zip(ins, outs))[:2]:
             r.sample({'input_and_schedule': s[0], 'observed': s[1]})
 
-    # ---------------- deque: the F15 witness on the real container
-    ins, outs, died, errs = run_deque_harness(ctx, h_dq, 'witness', 0, 0, 1, 120)
-    rcw, wout = sh([drv], input='IN WITNESS\n', timeout=60)
-    wl = [x for x in wout.split('\n') if x.startswith('OUT WITNESS')]
-    wit_ok = False
-    if wl and 'w' in ins:
-        f = dict(x.split('=', 1) for x in wl[0].split(' ')[2:])
-        p = ins['w'].split(' ')
-        same = (p[3] == f['k'] and p[5] == f['init'] and p[6] == f['p0'] and p[7] == f['p1'] and p[8] == f['sched'])
-        if not same:
-            r.hits.append(Hit('corr', 'C17:deque:witness_schedule',
-                              'the real deque does not execute the schedule of deque_aba_refuted: harness [%s] Coq witness [%s]' % (ins['w'][:500], wl[0][:500]),
-                              {'harness': 'c17_deque', 'args': ['witness'], 'case': ins.get('w')}))
-        wit_ok = same
-    else:
-        r.hits.append(Hit('tie', 'C17:deque:witness', 'witness run produced no case: %s %s' % (errs, wout[-300:]), {'harness': 'c17_deque', 'args': ['witness']}))
-    before = len([h for h in r.hits if h.signature == ABA_SIG])
-    check_deque_cases(ctx, r, drv, 'F15 witness', ['witness'], ins, outs, died, errs)
-    reproduced = len([h for h in r.hits if h.signature == ABA_SIG]) > before
-    r.extra['f15_witness'] = {'schedule_matches_coq_witness': wit_ok, 'duplicate_and_loss_observed_on_real_deque': reproduced,
-                              'observed': outs.get('w', '')[-120:]}
-    if wit_ok and not reproduced and not [h for h in r.hits if h.kind in ('corr', 'monitor') and 'witness' in h.detail]:
-        r.notes.append('F15 witness executed but produced no violation on the implementation')
+    # ---------------- deque: the former F15 witness schedule on the real container (harmless since the
+    # `fix:` commit: the drain must be 100,5,6; with the fix reverted the monitor reports the duplicate)
+    # (second schedule: the target link is written by a push's private store — the other half of the fix)
+    # (witness3 / witness4: their mirror images — stabilize_left, the left link = word 0 of the chunk; the
+    # victim pops from the right after its push and must get 100,5,6 resp. 5,7; the deque is then empty)
+    for (wmode, wid, wcmd, wrest) in (('witness', 'w', 'WITNESS', '100,5,6'), ('witness2', 'w2', 'WITNESS2', '5,7'),
+                                      ('witness3', 'w3', 'WITNESS3', '-'), ('witness4', 'w4', 'WITNESS4', '-')):
+        ins, outs, died, errs = run_deque_harness(ctx, h_dq, wmode, 0, 0, 1, 120)
+        rcw, wout = sh([drv], input='IN %s\n' % wcmd, timeout=60)
+        wl = [x for x in wout.split('\n') if x.startswith('OUT ' + wcmd + ' ')]
+        wit_ok = False
+        if wl and wid in ins:
+            f = dict(x.split('=', 1) for x in wl[0].split(' ')[2:])
+            p = ins[wid].split(' ')
+            same = (p[3] == f['k'] and p[5] == f['init'] and p[6] == f['p0'] and p[7] == f['p1'] and p[8] == f['sched'])
+            if not same:
+                r.hits.append(Hit('corr', 'C17:deque:witness_schedule',
+                                  'the real deque does not execute the former F15 witness schedule (Model/DequeWitness.v, %s): harness [%s] Coq witness [%s]' % (wmode, ins[wid][:500], wl[0][:500]),
+                                  {'harness': 'c17_deque', 'args': [wmode], 'case': ins.get(wid)}))
+            wit_ok = same
+        else:
+            r.hits.append(Hit('tie', 'C17:deque:witness', '%s run produced no case: %s %s' % (wmode, errs, wout[-300:]), {'harness': 'c17_deque', 'args': [wmode]}))
+        before = len([h for h in r.hits if h.kind == 'monitor'])
+        check_deque_cases(ctx, r, drv, 'F15 ' + wmode, [wmode], ins, outs, died, errs)
+        reproduced = len([h for h in r.hits if h.kind == 'monitor']) > before
+        r.extra['f15_' + wmode] = {'schedule_matches_coq_witness': wit_ok, 'duplicate_and_loss_observed_on_real_deque': reproduced,
+                                   'drain_is_' + wrest.replace(',', '_').replace('-', 'empty'): outs.get(wid, '').endswith('rest=' + wrest),
+                                   'observed': outs.get(wid, '')[-120:]}
 
     # ---------------- deque: generated lock-step cases
     ncase = 6000 if quick else 30000
